@@ -973,6 +973,7 @@ func genC05(c *Ctx) {
 		if c.Thorough() || k == 0 || k == 1 || k == 4 {
 			c.c05DegreeContract(s)
 		}
+		c.c05MissingKey(s)
 	}
 	c.c05ProbeQMul()
 }
